@@ -323,6 +323,49 @@ for dt in INTS:
             R.check("decode(encode(x)) == x for integer arrays (or the value is rejected)", f"{name} {dt.__name__}",
                     {"dtype": dt.__name__, "array": arr.tolist(), "chain": name}, lambda arr=arr, mk=mk: chain_roundtrip(arr, mk))
 
+def masked_column_case(dt, ask, masked_value, flavour):
+    """columns with masks: asking for the values (as_array with any dtype / masked_value) is a read - the stored data,
+    the mask and what the column serialises to are the same afterwards, and the answer has the masked rows replaced"""
+    from biotite.structure.io.pdbx.bcif import BinaryCIFColumn as BCol
+    vals = (np.arange(8) * 1.25 + 1).astype(dt) if np.dtype(dt).kind == "f" else np.arange(1, 9).astype(dt)
+    mask = np.array([0, 1, 0, 2, 0, 0, 1, 0], dtype=np.uint8)
+    if flavour == "decoded":
+        enc = [E.FixedPointEncoding(factor=100), E.ByteArrayEncoding()] if np.dtype(dt).kind == "f" else [E.DeltaEncoding(), E.ByteArrayEncoding()]
+        col = BCol.deserialize(BCol(BinaryCIFData(vals.copy(), enc), BinaryCIFData(mask.copy())).serialize())
+    else:
+        col = BCol(BinaryCIFData(vals.copy()), BinaryCIFData(mask.copy()))
+    before = (np.array(col.data.array).tolist(), np.array(col.mask.array).tolist(), repr(col.serialize()))
+    try:
+        got = col.as_array(ask, masked_value=masked_value)
+    except (ValueError, TypeError):
+        got = None
+    after = (np.array(col.data.array).tolist(), np.array(col.mask.array).tolist(), repr(col.serialize()))
+    if after != before:
+        return f"as_array({np.dtype(ask) if ask is not None else None}, masked_value={masked_value!r}) changed the stored column: data {before[0]} -> {after[0]}"
+    lossless = ask is None or np.dtype(ask).kind == "f" or (np.dtype(ask).kind in "iu" and np.dtype(dt).kind in "iu")
+    if got is not None and masked_value is not None and not isinstance(masked_value, str) and lossless and (ask is None or np.dtype(ask).kind != "U"):
+        g = np.asarray(got)
+        for k in range(8):
+            if mask[k] == 0 and float(g[k]) != float(vals[k]):
+                return f"present row {k} = {g[k]!r}, stored {vals[k]!r}"
+            if mask[k] != 0 and not (np.isnan(masked_value) and np.isnan(float(g[k]))) and float(g[k]) != float(masked_value):
+                return f"masked row {k} = {g[k]!r}, masked_value {masked_value!r}"
+    return None
+
+
+for dt in (np.float32, np.float64, np.int32, np.int64):
+    for ask in (None, dt, np.float64, int, str):
+        for mv in (None, -1, 0):
+            for flavour in ("built", "decoded"):
+                R.check("columns with masks read back equal; reading is pure", f"masked column {np.dtype(dt).name}",
+                        {"stored dtype": np.dtype(dt).name, "asked dtype": str(ask), "masked_value": mv, "column": flavour},
+                        lambda dt=dt, ask=ask, mv=mv, flavour=flavour: masked_column_case(dt, ask, mv, flavour))
+    if np.dtype(dt).kind == "f":
+        for flavour in ("built", "decoded"):
+            R.check("columns with masks read back equal; reading is pure", f"masked column {np.dtype(dt).name}",
+                    {"stored dtype": np.dtype(dt).name, "asked dtype": np.dtype(dt).name, "masked_value": "nan", "column": flavour},
+                    lambda dt=dt, flavour=flavour: masked_column_case(dt, dt, float("nan"), flavour))
+
 # 64-bit input: the format has no 64-bit integers (TypeCode maps int64 -> int32); values beyond 32 bit must be
 # rejected or kept, never silently altered
 WIDE64 = {np.int64: [[0, 5, -7], [0, 2 ** 40, 5], [2 ** 40, 2 ** 40 + 1], [-2 ** 31 - 1, 0], [2 ** 31, 1], [2 ** 31 - 1, -2 ** 31]],
